@@ -105,8 +105,8 @@ with ML (w : bytes) : list re -> nat -> nat -> Prop :=
 | ML_nil i : ML w [] i i
 | ML_cons a l i k j : M w a i k -> ML w l k j -> ML w (a :: l) i j.
 
-Scheme M_mind := Induction for M Sort Prop
-  with ML_mind := Induction for ML Sort Prop.
+Scheme M_mind := Minimality for M Sort Prop
+  with ML_mind := Minimality for ML Sort Prop.
 
 (* offsets at which the engine can be positioned: 0, then one decoded rune at a time *)
 Fixpoint bounds_from (fuel : nat) (s : bytes) (i : nat) : list nat :=
